@@ -118,7 +118,7 @@ class Report:
             # a listed finding that no longer fires is reported (not an alarm): it was
             # repaired or the code moved; the list is never edited at run time.
             print(f"NOTE: property={self.prop} listed known finding no longer reported: {k['key']}")
-        rdir = VERIF / "replay" / self.prop
+        rdir = (Path("/tmp/verif-scratch-replay") if os.environ.get("VERIF_NO_EVIDENCE") else VERIF / "replay") / self.prop
         for o in unlisted:
             rdir.mkdir(parents=True, exist_ok=True)
             rp = rdir / f"{_hash(o.key)}.json"
@@ -193,6 +193,8 @@ class Report:
             "wall_s": round(time.time() - self.t0, 3),
             "violations": n_viol,
         }
+        if os.environ.get("VERIF_NO_EVIDENCE"):
+            return
         ed = VERIF / "evidence"
         ed.mkdir(exist_ok=True)
         (ed / f"{self.prop}.json").write_text(json.dumps(ev, indent=1, default=str))
